@@ -51,7 +51,7 @@ def plan(tier, seed):
 def mandatory_bins(tier):
     b = ["sel_%d_explicit" % s for s in range(4)] + ["sel_%d_no_encryptors" % s for s in range(4)] + ["sel_%d_only_other_selectors" % s for s in range(4)] + ["sel_%d_default_encryptor_object" % s for s in range(4)]
     b += ["scalar_1", "scalar_2", "scalar_n-2", "scalar_n-1", "scalar_2^k", "scalar_2^k-1", "scalar_random", "key_trailing_zero", "key_all_zero", "model_block_opened_by_real_decryptor",
-          "whole_file_with_ecc_block", "published_keys_pinned"]
+          "whole_file_with_ecc_block", "published_keys_pinned", "explicit_recipients_created_before_first_default_use"]
     b += ["invalid:" + c for c in INVALID_CLASSES]
     return b
 
@@ -205,8 +205,15 @@ def run_default(ns, ctx, spec):
     try:
         for j in range(spec["n"]):
             idx = spec["i"] + 8 * j
-            sel = idx % 4
-            how = ("no_encryptors", "only_other_selectors", "default_encryptor_object")[(idx // 4) % 3]
+            sel = (j + spec["i"]) % 4
+            how = ("no_encryptors", "only_other_selectors", "default_encryptor_object")[(j // 4 + spec["i"]) % 3]
+            if j == 0:
+                # explicit recipients for every selector are created BEFORE the first default use in this process:
+                # a default block must still be addressed to the published key
+                for s2 in range(4):
+                    B.EccDecryptor(s2, GB.private_key_obj(ns, 4000 + s2))
+                    B.EccEncryptor(s2, GB.private_key_obj(ns, 5000 + s2).public_key)
+                ctx.bin("explicit_recipients_created_before_first_default_use")
             key = gen_session_key(ctx, rng)
             eph, sname = edge_scalar(rng, idx // 12)
             eph = min(eph, ecies.P256_N - 1)
